@@ -19,6 +19,7 @@ ModViol(cfg, e) ==
   IF e.out \notin Allowed(cfg)
   THEN (IF e.out = "accepted" THEN "bad config accepted: " \o WhyRejected(cfg)
         ELSE "healthy configuration rejected")
+  ELSE IF "cfgb" \in DOMAIN e /\ e.cfgb # e.cfga THEN "processing changed the configuration"
   ELSE IF e.out = "accepted" THEN StateViol(cfg, e.st) ELSE ""
 
 Refusable(m) == {p \in pending[m] : \E x \in Outside(cfgof[m]) : x.par = p /\ x.prop = "value"}
@@ -59,6 +60,7 @@ Viol(e) ==
          ELSE IF \E m \in Mods : pending[m] \ Refusable(m) # {} THEN "configured write lost"
          ELSE IF ToSet(e.registered) # Mods THEN "registered modules"
          ELSE ""
+    [] e.ev = "cfgkept" -> IF e.before # e.after THEN "processing changed the configuration" ELSE ""
     [] e.ev = "crash" -> "node start-up crashed instead of reporting errors"
     [] OTHER -> "harness: unknown event"
 
@@ -80,6 +82,7 @@ Apply(e) ==
          /\ polled' = polled \cup {e.m}
          /\ UNCHANGED <<cfgof, created, registered, node, reported, started, origin>>
     [] e.ev = "running" -> UNCHANGED <<nvars, origin>>
+    [] e.ev = "cfgkept" -> UNCHANGED <<nvars, origin>>
 
 (* named deviation (findings.d/C10.json, fixed in /repo by d0a74b7; a regression is reported    *)
 (* under this name): Server._processCfg calls startModule of every module that could be        *)
